@@ -201,6 +201,54 @@ pub fn run(ctx: &Ctx) -> Report {
     total.merge(st);
     total.exhaustive_parts.push("every documented directive/escape alone, between literals, and every ordered pair".into());
 
+    // runs of octal escapes that spell the bytes of a multi-byte UTF-8 character (every ordered pair
+    // of values 0200..0377, every pair with one value below; sampled three- and four-byte sequences):
+    // each escape stays an element of its own, whatever the values next to it mean together
+    let oct = run_shards(16, |shard| {
+        let mut st = Stats::new();
+        for a in 0o200u32..=0o377 {
+            if a as usize % 16 != shard {
+                continue;
+            }
+            for b in 0u32..=0o377 {
+                for s in [format!("\\{a:03o}\\{b:03o}"), format!("x\\{b:03o}\\{a:03o}y")] {
+                    if b < 0o200 && s.starts_with('x') && b == 0x1e {
+                        continue;
+                    }
+                    let v = judge(&s);
+                    st.record(&v, stable_hash(&s), true, || case_json(&s));
+                }
+            }
+        }
+        if shard == 0 {
+            for ch in ['é', 'ß', '€', '日', '\u{800}', '\u{ffff}', '😀', '\u{10000}', '\u{10ffff}', '\u{7ff}', '\u{80}'] {
+                let mut buf = [0u8; 4];
+                let esc: String = ch.encode_utf8(&mut buf).bytes().map(|b| format!("\\{b:03o}")).collect();
+                for s in [esc.clone(), format!("a{esc}b"), format!("{esc}{esc}"), format!("%p{esc}\\n"), format!("{ch}{esc}")] {
+                    let v = judge(&s);
+                    st.record(&v, stable_hash(&s), true, || case_json(&s));
+                }
+            }
+        }
+        st
+    });
+    total.merge(oct);
+    total.exhaustive_parts.push("every ordered pair of octal escapes with a value 0200..0377 on one side, and the escape spellings of the UTF-8 bytes of two-, three- and four-byte characters".into());
+    // several directives with an argument in one format, their names differing in case only or not at all
+    let mut stx = Stats::new();
+    let names = ["Owner", "owner", "OWNER", "tag", "Tag", "user", "USER", "fid", "FID", "a", "A"];
+    for a in names {
+        for b in names {
+            for sep in ["", "=", " ", "%p", "\\n"] {
+                for s in [format!("%{{xattr:{a}}}{sep}%{{xattr:{b}}}"), format!("%{{xattr:{a}}}{sep}%{{xattr:{b}}}{sep}%{{xattr:{a}}}")] {
+                    let v = judge(&s);
+                    stx.record(&v, stable_hash(&s), true, || case_json(&s));
+                }
+            }
+        }
+    }
+    total.merge(stx);
+
     // look-alikes: non-ASCII characters whose low byte equals that of '%', '\\', a digit, a letter of a
     // directive: they are ordinary literal text
     let mut stk = Stats::new();
